@@ -363,3 +363,71 @@ def check_setters(reg, src, prop):
                 mag = newv if attr == "dt" else before["_OdeSystem__dt"]
                 ex.prove(s, ctx, z3.Or(tfn == t0n, o["_OdeSystem__dt"] == oriented(mag, tfn, t0n)), "post", "dt-points-from-t0-toward-tf#%d" % k)
     return out
+
+
+def check_method_ops(reg, src, prop):
+    """set_method / `method =` / set_kick_vars on a system in an arbitrary run state (the remaining setting operations of C13's histories):
+    the method setting becomes the class registered under the given name, a mask becomes the staggered_mask setting, the integrator is
+    rebuilt from the current settings by the (new) method class, and nothing of the run state (trajectory, events, status, dense output,
+    counters, dt) changes.  (Whether the rebuilt integrator *receives* the mask is outside C13: see F25 in DESIGN.md.)"""
+    out = []
+    RUN = ("counter", "_OdeSystem__t", "_OdeSystem__y", "_OdeSystem__sol", "_OdeSystem__int_status", "_OdeSystem__events", "equ_rhs", "_OdeSystem__dt", "_OdeSystem__dt0",
+           "_OdeSystem__tf", "_OdeSystem__t0", "_OdeSystem__rtol", "_OdeSystem__atol", "_OdeSystem__consts", "_OdeSystem__dense_output")
+
+    def same(a, b):
+        return a is b or (z3.is_expr(a) and z3.is_expr(b) and a.eq(b)) or (isinstance(a, SeqVal) and isinstance(b, SeqVal) and a.arr.eq(b.arr) and z3.is_expr(a.length) and a.length.eq(b.length)) \
+            or (not z3.is_expr(a) and not z3.is_expr(b) and not isinstance(a, SeqVal) and a == b)
+    for op in ("set_method", "method.setter", "set_kick_vars"):
+        made = []
+        ex = Executor(src, reg, prop=prop)
+        ex.inline.update(["OdeSystem.initialise_integrator", "OdeSystem.set_method", "OdeSystem.__get_integrator_mask"])
+        st = State()
+        selfobj, before, old_integ = _run_state(st, made)
+        before = dict(before)
+        new_cls = st.new_obj("MethodClass", fields=dict(symplectic=False, is_implicit=ModuleRef("property-object"), registered_as="NEWMETHOD"))
+
+        def new_integrator(ex_, st_, ctx, args, kwargs, made=made):
+            r = st_.new_obj("Integrator", fields=dict(fresh=True, final_rhs=None, kwargs=dict(kwargs), built_by=args[0]))
+            made.append(r)
+            return r
+        ex.call_hooks["MethodClass.__call__"] = new_integrator
+        registry = st.new_obj("dict", "dict", items={"NEWMETHOD": new_cls})
+        ex.call_hooks["integrators.available_methods"] = lambda ex_, st_, ctx, args, kwargs: registry
+        ex.call_hooks["deutil.warning"] = lambda ex_, st_, ctx, args, kwargs: None
+        ex.call_hooks["utilities.warning"] = lambda ex_, st_, ctx, args, kwargs: None
+        tag = "OdeSystem." + op
+        pre = "%s/%s/" % (prop, tag)
+        if op == "set_kick_vars":
+            fi = src.func(F, "OdeSystem.set_kick_vars")
+            arg = Opaque("new_mask")
+            ctx = Ctx(fi, None, fi.cls, tag=tag)
+            paths = [(s, None if not isinstance(v, Raised) else ("raise", v.exc)) for s, v in ex.call_function(fi, [selfobj, arg], {}, st, ctx)]
+        elif op == "set_method":
+            fi = src.func(F, "OdeSystem.set_method")
+            ctx = Ctx(fi, None, fi.cls, tag=tag)
+            paths = [(s, None if not isinstance(v, Raised) else ("raise", v.exc)) for s, v in ex.call_function(fi, [selfobj, "NEWMETHOD"], {}, st, ctx)]
+        else:
+            fi = src.func(F, "OdeSystem.method.setter")
+            ctx = Ctx(fi, None, fi.cls, tag=tag)
+            paths = ex.setattr(selfobj, "method", "NEWMETHOD", st, ctx)
+        out.append(fi)
+        normal = [(s, oc) for s, oc in paths if oc is None]
+        reg.ground(pre + "returns", "post", tag, len(normal) >= 1 and len(normal) == len(paths), backend="symbolic-exec", detail="%d normal of %d paths" % (len(normal), len(paths)))
+        for k, (s, oc) in enumerate(normal):
+            o = s.obj(selfobj).fields
+            changed = [f for f in before if not same(o[f], before[f])]
+            allowed = {"integrator", "staggered_mask"} | ({"_OdeSystem__method"} if op != "set_kick_vars" else set())
+            reg.ground(pre + "frame#%d" % k, "frame", tag, set(changed) <= allowed and not (set(changed) & set(RUN)), backend="symbolic-exec",
+                       detail="fields changed: %r (allowed: %r); trajectory, events, status, dense output, counters, dt and the other settings untouched" % (changed, sorted(allowed)))
+            integ = o["integrator"]
+            fresh = isinstance(integ, Ref) and integ in made and integ != old_integ
+            kw = s.obj(integ).fields.get("kwargs", {}) if fresh else {}
+            want_cls = new_cls if op != "set_kick_vars" else before["_OdeSystem__method"]
+            reg.ground(pre + "integrator-rebuilt-by-the-method-in-force-from-the-current-settings#%d" % k, "post", tag,
+                       fresh and s.obj(integ).fields.get("built_by") == want_cls and kw.get("rtol") is o["_OdeSystem__rtol"] and kw.get("atol") is o["_OdeSystem__atol"] and s.obj(integ).fields.get("final_rhs") is None,
+                       backend="symbolic-exec", detail="new integrator object built by %s with the system's atol / rtol; no cached slopes" % ("the class registered under the given name" if op != "set_kick_vars" else "the unchanged method class"))
+            if op == "set_kick_vars":
+                reg.ground(pre + "mask-setting-stored#%d" % k, "post", tag, o["staggered_mask"] is arg, backend="symbolic-exec")
+            else:
+                reg.ground(pre + "method-setting-is-the-registered-class#%d" % k, "post", tag, o["_OdeSystem__method"] == new_cls, backend="symbolic-exec")
+    return out
